@@ -9,7 +9,10 @@ import vspec
 VERIF = os.path.dirname(os.path.dirname(os.path.abspath(__file__)))
 REPO = os.environ.get('VERIF_REPO', '/repo')
 
-HEADER = '''#![allow(unused_imports, unused_variables, unused_mut, dead_code, unused_assignments, non_snake_case, unreachable_code, unused_parens, unused_braces)]
+HEADER = '''#![feature(allocator_api)]
+#![feature(sized_hierarchy)]
+#![feature(pattern)]
+#![allow(unused_imports, unused_variables, unused_mut, dead_code, unused_assignments, non_snake_case, unreachable_code, unused_parens, unused_braces)]
 '''
 
 
@@ -19,6 +22,7 @@ class Ctx:
         self.unit = unit
         self.source_fns = {}
         self.lifted = {}
+        self.repo = REPO
 
     def add_source(self, sf):
         def walk(items):
@@ -287,12 +291,14 @@ def build(unit_path, repo=None, extra_tail=''):
     repo = repo or REPO
     u = vspec.parse(unit_path)
     ctx = Ctx(u)
+    ctx.repo = repo
     g = Generated()
     sources = {}
     parts = []
     parts.append(HEADER)
     for f in u.features:
-        parts.append('#![feature(%s)]\n' % f)
+        if f not in ('allocator_api', 'sized_hierarchy', 'pattern'):
+            parts.append('#![feature(%s)]\n' % f)
     parts.append('use vstd::prelude::*;\n')
     pre_uses = []
     frag_texts = []
@@ -331,11 +337,11 @@ def build(unit_path, repo=None, extra_tail=''):
                 close_impl()
                 item_chunks.append('%s {\n' % hdr)
                 open_impl = hdr
-            item_chunks.append('// ---- raw in block (units/%s:%d)\n%s\n' % (os.path.basename(unit_path), it[2], it[1]))
+            item_chunks.append('// ---- raw in block (units/%s.vspec:%d)\n%s\n' % (it[4], it[2], it[1]))
             continue
         if isinstance(it, tuple):
             close_impl()
-            item_chunks.append('// ======== raw (units/%s:%d) ========\n%s\n' % (os.path.basename(unit_path), it[2], it[1]))
+            item_chunks.append('// ======== raw (units/%s.vspec:%d) ========\n%s\n' % (it[4], it[2], it[1]))
             continue
         if it.source is None:
             raise Undecided('%s:%d: item without source' % (unit_path, it.lineno))
@@ -424,6 +430,8 @@ def build(unit_path, repo=None, extra_tail=''):
                     g.clauses[c.label] = {'tags': c.tags, 'kind': 'loop-' + c.kind, 'expr': c.expr, 'fn': fname, 'unit': u.name}
         for n, d in it.closures.items():
             for c in d['clauses']:
+                if not c.label:
+                    continue
                 if c.label in g.clauses:
                     raise Undecided('duplicate clause label %s' % c.label)
                 g.clauses[c.label] = {'tags': c.tags, 'kind': 'closure-' + c.kind, 'expr': c.expr, 'fn': fname, 'unit': u.name}
@@ -431,12 +439,12 @@ def build(unit_path, repo=None, extra_tail=''):
             if label not in g.clauses and not included:
                 g.clauses[label] = {'tags': tags, 'kind': 'hint', 'expr': '(proof hint)', 'fn': fname, 'unit': u.name}
         pre = ''.join('    ' + a + '\n' for a in it.attrs)
-        if it.external_body:
+        if it.external_body and body is not None:
             pre += '    #[verifier::external_body]\n'
         if body is None:
             chunk = '%s    %s\n%s    ;\n' % (pre, sig.strip(), contract)
         else:
-            body2 = splice_body(body, it, where)
+            body2 = body if (included and it.external_body) else splice_body(body, it, where)
             chunk = '%s    %s // @@fn:%s\n%s    %s\n' % (pre, sig.strip(), fname, contract, body2)
         item_chunks.append('// ---- %s\n%s' % (where, chunk))
         g.functions.append({'name': fname, 'kind': 'fn', 'source': it.source, 'path': it.path, 'line': sf.line_of(item), 'sha': sha(item.text),
